@@ -25,9 +25,21 @@ class HarnessError(Exception):
 # quantisable virtual clock (tools/build_sysroot.py).  None = stock Miri sysroot (fallback: coarse-clock
 # runs are then skipped and a NOTE is printed).
 SYSROOT = None
-# Big-endian lane: the same patched library built for s390x; Miri interprets that target's MIR on this host.
+# Cross-interpreted lanes: the same patched library built for other targets; Miri interprets that target's MIR on
+# this host.  s390x = big-endian; x86_64-pc-windows-msvc and aarch64-apple-darwin = other operating systems (std's
+# thread-local storage, thread naming, clock and entropy paths differ per OS, and so does any cfg(windows) /
+# cfg(target_os) / cfg(target_arch) code a change brings with it).
 BE_TARGET = "s390x-unknown-linux-gnu"
+WIN_TARGET = "x86_64-pc-windows-msvc"
+MAC_TARGET = "aarch64-apple-darwin"
+OS_TARGETS = [WIN_TARGET, MAC_TARGET]
+TARGETS = [BE_TARGET] + OS_TARGETS
+SYSROOTS = {}  # target -> sysroot path, for the targets whose sysroot could be built
 SYSROOT_BE = None
+
+
+def target_dir(target):
+    return "target-patched-be" if target == BE_TARGET else "target-patched-" + target.split("-")[2 if target.count("-") > 2 else 1] + "-" + target.split("-")[0]
 
 
 def ensure_sysroot():
@@ -38,8 +50,13 @@ def ensure_sysroot():
         SYSROOT = p.stdout.strip()
     else:
         SYSROOT = None
-    q = subprocess.run([sys.executable, tool, "--target", BE_TARGET], capture_output=True, text=True, timeout=1800)
-    SYSROOT_BE = q.stdout.strip() if q.returncode == 0 and os.path.isdir(q.stdout.strip()) else None
+    for t in TARGETS:
+        q = subprocess.run([sys.executable, tool, "--target", t], capture_output=True, text=True, timeout=1800)
+        if q.returncode == 0 and os.path.isdir(q.stdout.strip()):
+            SYSROOTS[t] = q.stdout.strip()
+        else:
+            SYSROOTS.pop(t, None)
+    SYSROOT_BE = SYSROOTS.get(BE_TARGET)
     return SYSROOT, (p.stderr or "").strip()[-500:]
 
 
@@ -51,8 +68,8 @@ def env_for(miriflags, target=None):
     env.pop("CARGO_TARGET_DIR", None)
     env.pop("MIRI_SYSROOT", None)
     if target:
-        env["MIRI_SYSROOT"] = SYSROOT_BE
-        env["CARGO_TARGET_DIR"] = "target-patched-be"
+        env["MIRI_SYSROOT"] = SYSROOTS[target]
+        env["CARGO_TARGET_DIR"] = target_dir(target)
     elif SYSROOT:
         env["MIRI_SYSROOT"] = SYSROOT
         env["CARGO_TARGET_DIR"] = "target-patched"  # relative to the crate dir (cwd): never mix artefacts of two sysroots
@@ -61,7 +78,7 @@ def env_for(miriflags, target=None):
 
 def miriflags(seed, preempt, extra=(), clockq=0):
     f = [f"-Zmiri-seed={seed}", f"-Zmiri-preemption-rate={preempt}"] + BASE_FLAGS + list(extra)
-    if clockq and (SYSROOT or SYSROOT_BE):
+    if clockq and (SYSROOT or SYSROOTS):
         f.append(f"-Zmiri-env-set=VERIF_CLOCK_QUANTUM_NS={int(clockq)}")  # coarse simulated clock
     return f
 
@@ -79,11 +96,13 @@ def build(sim_dir=SIM_DIR):
                            cwd=sim_dir, env=env_for(miriflags(0, 0)), capture_output=True, text=True, timeout=1800)
         if p.returncode != 0 or "c19_sim built" not in p.stdout:
             raise HarnessError(f"build of the simulation harness ({'release' if prof else 'dev'} profile) failed:\n" + p.stdout[-2000:] + p.stderr[-6000:])
-    if SYSROOT_BE:
-        p = subprocess.run(["cargo", "+nightly", "miri", "run", "-q", "--offline", "--target", BE_TARGET, "--", "--build-only"],
-                           cwd=sim_dir, env=env_for(miriflags(0, 0), BE_TARGET), capture_output=True, text=True, timeout=1800)
+    for t in TARGETS:
+        if t not in SYSROOTS:
+            continue
+        p = subprocess.run(["cargo", "+nightly", "miri", "run", "-q", "--offline", "--target", t, "--", "--build-only"],
+                           cwd=sim_dir, env=env_for(miriflags(0, 0), t), capture_output=True, text=True, timeout=1800)
         if p.returncode != 0 or "c19_sim built" not in p.stdout:
-            raise HarnessError(f"build of the simulation harness for {BE_TARGET} failed:\n" + p.stdout[-2000:] + p.stderr[-6000:])
+            raise HarnessError(f"build of the simulation harness for {t} failed:\n" + p.stdout[-2000:] + p.stderr[-6000:])
     return time.time() - t0
 
 
@@ -101,6 +120,10 @@ def argv_of(job):
         a += ["warm=1"]
     if job.get("gens", 1) > 1:
         a += [f"gens={job['gens']}"]
+    if job.get("spawn"):
+        a += [f"spawn={job['spawn']}"]
+    if job.get("fault"):
+        a += [f"fault={job['fault']}"]
     a += [f"hang={hang_limit(job)}"]
     return a
 
@@ -146,6 +169,10 @@ def predicted_cost(job):
     c += draws_of(job) * 0.004  # per-draw overhead (alloc, stamps, checks)
     if job.get("battery"):
         c += 3.0 * k
+    if job.get("fault", 0) & 2:
+        c += 0.5 * job.get("gens", 1)  # the victim thread: seeding, a few draws, an unwind
+    if job.get("fault", 0) & 1:
+        c += draws_of(job) * 0.003
     if job.get("ops"):
         # one neighbour operation (~30 ms) per four draws (odd seed: mix) or per draw (even seed: fixed)
         c += draws_of(job) * (0.008 if job["ops"] & 1 else 0.03)
@@ -241,7 +268,7 @@ def classify_failure(err, repo_marker=REPO):
 
 
 def parse_log(text):
-    run = {"draws": [], "joins": [], "battery": [], "config": None, "virt_ns": None}
+    run = {"draws": [], "joins": [], "battery": [], "config": None, "virt_ns": None, "victims_died": [], "caught_faults": (0, 0)}
     for line in text.splitlines():
         if not line:
             continue
@@ -256,6 +283,11 @@ def parse_log(text):
             run["battery"].append((int(f[1]), int(f[2]), int(f[3]), f[4]))
         elif c == "J":
             run["joins"].append(int(line.split(" ")[1]))
+        elif c == "F":
+            run["victims_died"].append(int(line.split(" ")[1]))
+        elif c == "Q":
+            f = line.split(" ")
+            run["caught_faults"] = (int(f[1]), int(f[2]))
         elif c == "T":
             run["virt_ns"] = int(line.split(" ")[1])
         elif c == "C":
